@@ -20,6 +20,10 @@ use std::{
 };
 use tokio::task::JoinHandle;
 
+/// Hasher with fixed keys for tables whose iteration or drop order influences task wake-up order,
+/// so that a simulation run is exactly repeatable.
+pub type DetHasher = std::hash::BuildHasherDefault<std::collections::hash_map::DefaultHasher>;
+
 /// Future type handed to [Hooks::block_on].
 pub type BlockOnFuture<'a> = Pin<&'a mut (dyn Future<Output = ()> + 'a)>;
 
